@@ -1,5 +1,6 @@
 mod api;
 mod db;
+mod errors;
 mod fmtrun;
 mod lexrun;
 mod literal;
@@ -25,6 +26,7 @@ fn main() {
         "stages" => stages::main(&args[1..]),
         "fmtrun" => fmtrun::main(&args[1..]),
         "literal" => literal::main(&args[1..]),
+        "errors" => errors::main(&args[1..]),
         "number" => literal::main_numbers(&args[1..]),
         "ident" => literal::main_idents(&args[1..]),
         "lexlist" => lexrun::main_list(&args[1..]),
